@@ -6,6 +6,7 @@ import (
 	"time"
 
 	"verif/mc/engine"
+	"verif/mc/gen"
 	"verif/mc/impl"
 	"verif/mc/ref"
 )
@@ -70,6 +71,14 @@ func init() {
 			for _, cc := range c05CLICases(tier) {
 				e.Emit(cc)
 			}
+			// the same biconditional on documents that are live results of Patch (built under one
+			// option set, queried under another): start from non-initial states
+			lv := c05LiveDocs()
+			for _, con := range []string{"none", "SET", "MULTISET", "replace:none", "replace:SET", "replace:MULTISET"} {
+				for _, q := range []string{"none", "SET", "MULTISET"} {
+					pairs(e, "c05live:"+con+":"+q, "live/"+con+"->"+q, lv, lv)
+				}
+			}
 			for _, o := range c05Opts {
 				for _, l := range c05Legs(tier, o) {
 					pairs(e, "c05:"+o, l.Name+"/"+o, l.A, l.B)
@@ -83,9 +92,26 @@ func init() {
 	})
 }
 
+func c05LiveDocs() *TextSet {
+	return memoize("c05-live", func() *TextSet {
+		vs := append([]V{}, Arr(3, "123").Vals...)
+		vs = append(vs, Placed(Arr(2, "12"), gen.Placements[1]).Vals...)
+		vs = append(vs, Placed(Arr(2, "12"), gen.Placements[2]).Vals...)
+		vs = append(vs, []interface{}{[]interface{}{1.0, 2.0}, []interface{}{2.0, 1.0}}, []interface{}{[]interface{}{2.0, 1.0}, []interface{}{1.0, 2.0}}, 1.0, map[string]interface{}{"k": 1.0})
+		return NewTextSet(vs)
+	})
+}
+
 func runC05(c *engine.Case) engine.Result {
 	if strings.HasPrefix(c.Kind, "c05cli:") {
 		return runC05CLI(c)
+	}
+	construct := ""
+	if strings.HasPrefix(c.Kind, "c05live:") {
+		rest := strings.TrimPrefix(c.Kind, "c05live:")
+		i := strings.LastIndex(rest, ":")
+		construct = rest[:i]
+		c = &engine.Case{Kind: "c05:" + rest[i+1:], Leg: c.Leg, A: c.A, B: c.B}
 	}
 	o := impl.Options(optOf(c.Kind))
 	aV, bV := ref.MustParse(c.A), ref.MustParse(c.B)
@@ -102,6 +128,19 @@ func runC05(c *engine.Case) engine.Result {
 	var fail string
 	p := impl.Guard(func() {
 		a, b := impl.Read(c.A), impl.Read(c.B)
+		if construct != "" {
+			// the reference judges the contents the live values actually have (a set-mode patch may
+			// legitimately have dropped duplicates)
+			if la, ok := impl.Live(c.A, construct); ok {
+				a = la
+				aV, _ = impl.ToV(la)
+			}
+			if lb, ok := impl.Live(c.B, construct); ok {
+				b = lb
+				bV, _ = impl.ToV(lb)
+			}
+			want = ref.Equal(aV, bV, o.Reading)
+		}
 		eq := a.Equals(b, o.Opts...)
 		d := a.Diff(b, o.Opts...)
 		res.Transitions += 2
@@ -125,6 +164,12 @@ func runC05(c *engine.Case) engine.Result {
 		res.Bucket = "unequal+nonempty"
 	}
 	res.Bucket += "/" + o.Name
+	if construct != "" {
+		res.Bucket = "live/" + res.Bucket
+		if fail != "" {
+			fail = "with a and b built as live results of Patch under " + construct + ": " + fail
+		}
+	}
 	res.Nontrivial = c.A != c.B
 	res.Violation = fail
 	return res
